@@ -1,14 +1,18 @@
 package centrifuge
 
 import (
+	"bufio"
 	"bytes"
 	"context"
 	"encoding/binary"
 	"fmt"
 	"io"
 	"math/rand"
+	"net"
 	"net/http"
 	"net/http/httptest"
+	"net/url"
+	"strconv"
 	"strings"
 	"sync"
 	"testing"
@@ -26,19 +30,79 @@ import (
 type c32Stream struct {
 	mu   sync.Mutex
 	buf  []byte
+	ends []int // end offsets (in buf) of the HTTP/1.1 chunks = one per flush of the handler
 	err  error
 	wake chan struct{}
 	pos  int // start of the not yet consumed part of buf
+	conn net.Conn
 }
 
-func c32NewStream(body io.Reader) *c32Stream {
-	s := &c32Stream{wake: make(chan struct{}, 1)}
+// c32Open speaks HTTP/1.1 itself so that the chunk boundaries of the response (one chunk per
+// Flush of the handler, i.e. per batch of messages) stay visible.
+func c32Open(t *testing.T, addr, method, target string, body []byte, ctype string) *c32Stream {
+	conn, err := net.Dial("tcp", addr)
+	if err != nil {
+		t.Fatal(err)
+	}
+	var req bytes.Buffer
+	fmt.Fprintf(&req, "%s %s HTTP/1.1\r\nHost: c32\r\n", method, target)
+	if ctype != "" {
+		fmt.Fprintf(&req, "Content-Type: %s\r\n", ctype)
+	}
+	if method == http.MethodPost {
+		fmt.Fprintf(&req, "Content-Length: %d\r\n", len(body))
+	}
+	req.WriteString("\r\n")
+	req.Write(body)
+	if _, err := conn.Write(req.Bytes()); err != nil {
+		t.Fatal(err)
+	}
+	br := bufio.NewReader(conn)
+	status, err := br.ReadString('\n')
+	if err != nil || !strings.Contains(status, " 200 ") {
+		t.Fatalf("%s %s: status %q err %v", method, target, status, err)
+	}
+	chunked := false
+	for {
+		line, err := br.ReadString('\n')
+		if err != nil {
+			t.Fatal(err)
+		}
+		if strings.TrimSpace(line) == "" {
+			break
+		}
+		if strings.HasPrefix(strings.ToLower(line), "transfer-encoding:") && strings.Contains(strings.ToLower(line), "chunked") {
+			chunked = true
+		}
+	}
+	if !chunked {
+		t.Fatalf("%s %s: response is not chunked", method, target)
+	}
+	s := &c32Stream{wake: make(chan struct{}, 1), conn: conn}
 	go func() {
-		tmp := make([]byte, 1<<16)
+		defer conn.Close()
 		for {
-			n, err := body.Read(tmp)
+			var data []byte
+			line, err := br.ReadString('\n')
+			if err == nil {
+				var size int64
+				size, err = strconv.ParseInt(strings.TrimSpace(line), 16, 64)
+				if err == nil && size == 0 {
+					err = io.EOF
+				}
+				if err == nil {
+					data = make([]byte, size)
+					_, err = io.ReadFull(br, data)
+					if err == nil {
+						_, err = br.Discard(2)
+					}
+				}
+			}
 			s.mu.Lock()
-			s.buf = append(s.buf, tmp[:n]...)
+			if len(data) > 0 {
+				s.buf = append(s.buf, data...)
+				s.ends = append(s.ends, len(s.buf))
+			}
 			if err != nil {
 				s.err = err
 			}
@@ -55,35 +119,50 @@ func c32NewStream(body io.Reader) *c32Stream {
 	return s
 }
 
-// take waits until end(unconsumed) >= 0 and returns unconsumed[:end], consuming it.
-func (s *c32Stream) take(end func([]byte) int) ([]byte, error) {
+// take waits until end(unconsumed) >= 0 and returns unconsumed[:end] (consuming it) together with
+// the pieces the HTTP chunk boundaries cut it into.
+func (s *c32Stream) take(end func([]byte) int) ([]byte, [][]byte, error) {
 	deadline := time.After(5 * time.Second)
 	for {
 		s.mu.Lock()
 		rest := s.buf[s.pos:]
 		if k := end(rest); k >= 0 {
 			out := append([]byte{}, rest[:k]...)
+			var pieces [][]byte
+			from := s.pos
+			for _, e := range s.ends {
+				if e <= s.pos {
+					continue
+				}
+				if e >= s.pos+k {
+					break
+				}
+				pieces = append(pieces, append([]byte{}, s.buf[from:e]...))
+				from = e
+			}
+			pieces = append(pieces, append([]byte{}, s.buf[from:s.pos+k]...))
 			s.pos += k
 			s.mu.Unlock()
-			return out, nil
+			return out, pieces, nil
 		}
 		err := s.err
 		s.mu.Unlock()
 		if err != nil {
-			return nil, err
+			return nil, nil, err
 		}
 		select {
 		case <-s.wake:
 		case <-deadline:
-			return nil, fmt.Errorf("timeout waiting for response body")
+			return nil, nil, fmt.Errorf("timeout waiting for response body")
 		}
 	}
 }
 
 const (
-	c32ChSSE = "c32:sse"
-	c32ChND  = "c32:nd"
-	c32ChPB  = "c32:pb"
+	c32ChSSE    = "c32:sse"
+	c32ChSSEGet = "c32:sseget"
+	c32ChND     = "c32:nd"
+	c32ChPB     = "c32:pb"
 )
 
 func c32JSONValue(r *rand.Rand, depth int) string {
@@ -201,17 +280,23 @@ func TestVerifC32(t *testing.T) {
 	}
 	n.OnConnecting(func(ctx context.Context, e ConnectEvent) (ConnectReply, error) {
 		subs := map[string]SubscribeOptions{}
-		pb := e.Transport.Protocol() == ProtocolTypeProtobuf
-		switch {
-		case e.Transport.Name() == transportSSE:
+		switch e.Name { // the driver's connections name themselves in the connect command
+		case "sse":
 			subs[c32ChSSE] = SubscribeOptions{}
-		case e.Transport.Name() == transportHTTPStream && !pb:
+		case "sseget":
+			subs[c32ChSSEGet] = SubscribeOptions{}
+		case "nd":
 			subs[c32ChND] = SubscribeOptions{}
-		case pb:
+		case "pb":
 			subs[c32ChPB] = SubscribeOptions{}
-		default: // the recording JSON client
-			subs[c32ChSSE] = SubscribeOptions{}
-			subs[c32ChND] = SubscribeOptions{}
+		default: // the recording clients
+			if e.Transport.Protocol() == ProtocolTypeProtobuf {
+				subs[c32ChPB] = SubscribeOptions{}
+			} else {
+				subs[c32ChSSE] = SubscribeOptions{}
+				subs[c32ChSSEGet] = SubscribeOptions{}
+				subs[c32ChND] = SubscribeOptions{}
+			}
 		}
 		return ConnectReply{Credentials: &Credentials{UserID: "u"}, Subscriptions: subs}, nil
 	})
@@ -227,29 +312,21 @@ func TestVerifC32(t *testing.T) {
 	server := httptest.NewServer(mux)
 	defer server.Close()
 
-	ctx, cancel := context.WithCancel(context.Background())
-	defer cancel()
-	open := func(path string, body []byte, ctype string) *c32Stream {
-		req, _ := http.NewRequestWithContext(ctx, http.MethodPost, server.URL+path, bytes.NewReader(body))
-		if ctype != "" {
-			req.Header.Set("Content-Type", ctype)
-		}
-		resp, err := http.DefaultClient.Do(req)
-		if err != nil {
-			t.Fatal(err)
-		}
-		if resp.StatusCode != 200 {
-			t.Fatalf("%s: status %d", path, resp.StatusCode)
-		}
-		return c32NewStream(resp.Body)
-	}
-	jsonConnect := []byte(`{"id":1,"connect":{}}`)
-	pbCmd, _ := (&protocol.Command{Id: 1, Connect: &protocol.ConnectRequest{}}).MarshalVT()
+	addr := server.Listener.Addr().String()
+	jsonConnect := func(name string) []byte { return []byte(`{"id":1,"connect":{"name":"` + name + `"}}`) }
+	pbCmd, _ := (&protocol.Command{Id: 1, Connect: &protocol.ConnectRequest{Name: "pb"}}).MarshalVT()
 	pbConnect := append(binary.AppendUvarint(nil, uint64(len(pbCmd))), pbCmd...)
 
-	sse := open("/sse", jsonConnect, "")
-	nd := open("/hs", jsonConnect, "")
-	pb := open("/hs", pbConnect, "application/octet-stream")
+	sse := c32Open(t, addr, http.MethodPost, "/sse", jsonConnect("sse"), "")
+	// the EventSource way: GET with the connect command in the cf_connect query parameter
+	sseGet := c32Open(t, addr, http.MethodGet, "/sse?"+connectUrlParam+"="+url.QueryEscape(string(jsonConnect("sseget"))), nil, "")
+	nd := c32Open(t, addr, http.MethodPost, "/hs", jsonConnect("nd"), "")
+	pb := c32Open(t, addr, http.MethodPost, "/hs", pbConnect, "application/octet-stream")
+	defer func() { // runs before server.Close, which waits for the connections to end
+		for _, st := range []*c32Stream{sse, sseGet, nd, pb} {
+			_ = st.conn.Close()
+		}
+	}()
 
 	// end-of-chunk detectors
 	sseEnd := func(marker []byte) func([]byte) int {
@@ -297,14 +374,18 @@ func TestVerifC32(t *testing.T) {
 	}
 
 	// connect replies
-	ssePre, err := sse.take(sseEnd([]byte(`"connect"`)))
+	ssePre, _, err := sse.take(sseEnd([]byte(`"connect"`)))
 	if err != nil {
 		t.Fatalf("sse connect: %v", err)
 	}
-	if _, err := nd.take(ndEnd([]byte(`"connect"`))); err != nil {
+	sseGetPre, _, err := sseGet.take(sseEnd([]byte(`"connect"`)))
+	if err != nil {
+		t.Fatalf("sse GET connect: %v", err)
+	}
+	if _, _, err := nd.take(ndEnd([]byte(`"connect"`))); err != nil {
 		t.Fatalf("http stream json connect: %v", err)
 	}
-	if _, err := pb.take(pbEnd(nil)); err != nil { // first frame = connect reply
+	if _, _, err := pb.take(pbEnd(nil)); err != nil { // first frame = connect reply
 		t.Fatalf("http stream protobuf connect: %v", err)
 	}
 
@@ -365,13 +446,14 @@ func TestVerifC32(t *testing.T) {
 			continue
 		}
 		r := w.Rand(i)
-		if i == 0 {
-			w.Case(i, vApp("CSsePre", vBytes(ssePre)), map[string]any{"kind": "sse-preamble", "body": string(ssePre)}, "sse-preamble", true)
+		if i < 2 {
+			pre := [][]byte{ssePre, sseGetPre}[i]
+			w.Case(i, vApp("CSsePre", vBytes(pre)), map[string]any{"kind": []string{"sse-preamble", "sse-get-preamble"}[i], "body": string(pre)}, "sse-preamble", true)
 			continue
 		}
-		kind := []string{"sse", "nd", "pb"}[i%3]
+		kind := []string{"sse", "sseget", "nd", "pb"}[i%4]
 		var payloads [][]byte
-		if j := (i - 1) / 3; j < len(corpus) && kind != "pb" {
+		if j := (i - 2) / 4; j < len(corpus) && kind != "pb" {
 			for _, p := range corpus[j] {
 				payloads = append(payloads, []byte(p))
 			}
@@ -395,7 +477,7 @@ func TestVerifC32(t *testing.T) {
 		} else {
 			endPayload = []byte(fmt.Sprintf(`{"end":"%s"}`, marker))
 		}
-		ch := map[string]string{"sse": c32ChSSE, "nd": c32ChND, "pb": c32ChPB}[kind]
+		ch := map[string]string{"sse": c32ChSSE, "sseget": c32ChSSEGet, "nd": c32ChND, "pb": c32ChPB}[kind]
 		all := append(append([][]byte{}, payloads...), endPayload)
 		burst := r.Intn(2) == 0
 		for _, p := range all {
@@ -407,26 +489,58 @@ func TestVerifC32(t *testing.T) {
 			}
 		}
 		var body []byte
+		var pieces [][]byte
 		var ref [][]byte
 		switch kind {
 		case "sse":
-			body, err = sse.take(sseEnd(marker))
+			body, pieces, err = sse.take(sseEnd(marker))
+			if err == nil {
+				ref, err = collect(jsonSink, len(all))
+			}
+		case "sseget":
+			body, pieces, err = sseGet.take(sseEnd(marker))
 			if err == nil {
 				ref, err = collect(jsonSink, len(all))
 			}
 		case "nd":
-			body, err = nd.take(ndEnd(marker))
+			body, pieces, err = nd.take(ndEnd(marker))
 			if err == nil {
 				ref, err = collect(jsonSink, len(all))
 			}
 		default:
-			body, err = pb.take(pbEnd(marker))
+			body, pieces, err = pb.take(pbEnd(marker))
 			if err == nil {
 				ref, err = collect(pbSink, len(all))
 			}
 		}
 		if err != nil {
 			t.Fatalf("case %d (%s): %v", i, kind, err)
+		}
+		// how many complete messages did one write (= one HTTP chunk) carry at most?
+		maxPerWrite := 0
+		for _, pc := range pieces {
+			k := 0
+			switch kind {
+			case "sse", "sseget":
+				k = bytes.Count(pc, []byte("\n\n"))
+			case "nd":
+				k = bytes.Count(pc, []byte("\n"))
+			default:
+				for pos := 0; pos < len(pc); {
+					l, m := binary.Uvarint(pc[pos:])
+					if m <= 0 || pos+m+int(l) > len(pc) {
+						break
+					}
+					pos += m + int(l)
+					k++
+				}
+			}
+			if k > maxPerWrite {
+				maxPerWrite = k
+			}
+		}
+		if prev, _ := w.Extra["max_messages_per_write_"+kind].(int); maxPerWrite > prev {
+			w.Extra["max_messages_per_write_"+kind] = maxPerWrite
 		}
 		hasCR, hasLF := false, false
 		for _, p := range payloads {
@@ -437,8 +551,11 @@ func TestVerifC32(t *testing.T) {
 				hasLF = true
 			}
 		}
-		ctor := map[string]string{"sse": "CSse", "nd": "CNd", "pb": "CPb"}[kind]
+		ctor := map[string]string{"sse": "CSse", "sseget": "CSse", "nd": "CNd", "pb": "CPb"}[kind]
 		class := kind
+		if maxPerWrite >= 2 {
+			class += "/multi-write"
+		}
 		if kind != "pb" {
 			if hasCR {
 				class += "/cr"
@@ -455,8 +572,8 @@ func TestVerifC32(t *testing.T) {
 		for q, p := range ref {
 			refs[q] = string(p)
 		}
-		js := map[string]any{"kind": kind, "payloads": strs, "payload_bytes": payloads, "body": string(body), "body_bytes": body, "queued": refs}
-		if kind == "sse" && hasCR {
+		js := map[string]any{"kind": kind, "messages_per_write_max": maxPerWrite, "writes": len(pieces), "payloads": strs, "payload_bytes": payloads, "body": string(body), "body_bytes": body, "queued": refs}
+		if (kind == "sse" || kind == "sseget") && hasCR {
 			js["key"] = "sse-raw-cr-in-json-whitespace" // canonical key of finding F8 (props finding_key)
 		}
 		w.Case(i, vApp(ctor, vBytes(body), c32List(ref)), js, class, len(payloads) > 0)
